@@ -104,8 +104,18 @@ Definition repeating_restart (s : st) (r : reason) : st * code :=
   then ({| restarts := restarts s + 1; resub := resub s; shut := shut s |}, Initiated)
   else (s, NotRequired).
 
+(* RepeatingEngine.restart after the F12b fix: like Engine.restart it restarts only for an exit
+   reason the component lists in restartHookOn ([repeating_restart] alone is the pinned code) *)
+Definition repeating_restart_listed (c : cfg) (s : st) (r : reason) : st * code :=
+  if mem r (hook_on c) then repeating_restart s r else (s, NotRequired).
+
 (* ComponentState.restart, with the exception caught by the controller *)
 Definition comp_restart (c : cfg) (s : st) (r : reason) (h : hookout) (run_ok : bool) : st * code :=
+  if shut s then (s, CouldNotInitiate)
+  else if is_rep c then repeating_restart_listed c s r else engine_restart c s r h run_ok.
+
+(* the pinned code before the F12b fix (RepeatingEngine.restart ignores restartHookOn) *)
+Definition comp_restart_f12b (c : cfg) (s : st) (r : reason) (h : hookout) (run_ok : bool) : st * code :=
   if shut s then (s, CouldNotInitiate)
   else if is_rep c then repeating_restart s r else engine_restart c s r h run_ok.
 
@@ -127,6 +137,16 @@ Definition ctl_restart_prefix (c : cfg) (s : st) (r : reason) (h : hookout) (sta
     if resub s <? max_resub then comp_restart c s r h run_ok else (s, MaxAttemptsExceeded)
   else if negb (reason_eqb r Killed || reason_eqb r Cancelled || reason_eqb r Success) then
     if stable then (s, CouldNotInitiate) else comp_restart c s r h run_ok
+  else (s, CouldNotInitiate).
+
+(* the pinned code before the F12b fix: the unstable-system path reaches a RepeatingEngine.restart
+   that does not look at restartHookOn *)
+Definition ctl_restart_f12b (c : cfg) (s : st) (r : reason) (h : hookout) (stable run_ok : bool) : st * code :=
+  if reason_eqb r SubmissionFailed then
+    if resub s <? max_resub then comp_restart_f12b c s r h run_ok else (s, MaxAttemptsExceeded)
+  else if mem r (hook_on c) then comp_restart_f12b c s r h run_ok
+  else if negb (reason_eqb r Killed || reason_eqb r Cancelled || reason_eqb r Success) then
+    if stable then (s, CouldNotInitiate) else comp_restart_f12b c s r h run_ok
   else (s, CouldNotInitiate).
 
 (* Engine._setExitReason: a successful exit resets the resubmission counter *)
@@ -208,3 +228,168 @@ Definition check_case (k : cfg * list exit_ev * (list obs * option final)) : boo
   let '(o', f') := trace c init_st h in
   list_eqb obs_eqb o o' &&
   match f, f' with None, None => true | Some a, Some b => final_eqb a b | _, _ => false end.
+
+(* ================================================================================================
+   Additions (proof strengthening): what a restart hook can cause, the DLMESO CONTROL-file hook
+   shipped in engine.py, the engine attributes Engine.restart resets.
+   ================================================================================================ *)
+
+(* does the hook's answer permit the restart? (RestartPossible / HookNotAvailable = vanilla restart) *)
+Definition hook_allows (h : hookout) : bool :=
+  match context_of h with CPossible | CNotAvailable => true | _ => false end.
+
+(* the hook Engine.restart ends up calling: the package's one when loadable, else the fallback *)
+Definition eff_hook (c : cfg) (r : reason) (h : hookout) : hookout :=
+  if match hook_file c with HFEmpty => false | _ => hook_loadable c end then h else default_hook r.
+
+(* is a restart hook (custom or fallback) called at all while this exit is handled?  Only on the
+   path: engine alive-able (not shut down), ordinary engine, listed reason other than
+   SubmissionFailed, not the simulator short-cut, budget not yet used up. *)
+Definition hook_called (c : cfg) (s : st) (r : reason) : bool :=
+  negb (shut s) && negb (is_rep c) && negb (reason_eqb r SubmissionFailed) && mem r (hook_on c)
+  && negb (is_sim c && sim_restart c)
+  && negb (negb (eff_max c =? -1) && (eff_max c <? restarts s + 1)).
+
+(* ---- DLMESORestart (engine.py:82): the fallback hook, now with the CONTROL file.
+   A CONTROL file is the list of its lines as readlines() returns them (bodies; only the last line
+   may lack its newline, recorded by the flag); None = the file cannot be opened (IOError). *)
+Require Import Coq.Strings.String.
+Record control_file := { cf_lines : list string; cf_last_nl : bool }.
+
+Definition str_eqb (a b : string) : bool := if string_dec a b then true else false.
+
+(* lines.insert(-1, x): before the last element; on an empty list: append *)
+Definition insert_before_last {A} (x : A) (l : list A) : list A :=
+  match rev l with
+  | [] => [x]
+  | z :: r => rev r ++ [x; z]
+  end.
+
+(* second-last line, lines[-2] *)
+Definition second_last {A} (l : list A) : option A :=
+  match rev l with _ :: y :: _ => Some y | _ => None end.
+
+Definition dlmeso_hook (r : reason) (f : option control_file) : hookout * option control_file :=
+  if negb (reason_eqb r ResourceExhausted) then (HFalse, f)
+  else match f with
+       | None => (HRaiseIO, None)                                   (* open() raises IOError *)
+       | Some cf =>
+           match second_last (cf_lines cf) with
+           | None => (HRaiseOther, f)                                (* lines[-2]: IndexError *)
+           | Some l2 =>
+               if str_eqb l2 "restart" then (HTrue, f)
+               else (HTrue, Some {| cf_lines := insert_before_last "restart"%string (cf_lines cf);
+                                    cf_last_nl := cf_last_nl cf |})
+           end
+       end.
+
+(* a configuration whose hook is the fallback, re-expressed as one with a loadable custom hook
+   (same effective maximum: '' and None give the same default of 3) *)
+Definition as_custom (c : cfg) : cfg :=
+  {| max_restarts := max_restarts c;
+     hook_file := match hook_file c with HFEmpty => HFNone | x => x end;
+     hook_loadable := true; hook_on := hook_on c; is_sim := is_sim c; sim_restart := sim_restart c;
+     is_rep := is_rep c; shutdown_on := shutdown_on c |}.
+
+Definition uses_fallback (c : cfg) : bool :=
+  match hook_file c with HFEmpty => true | _ => negb (hook_loadable c) end.
+
+(* a history of exits in a working directory with a CONTROL file: the fallback hook's answer is
+   computed from the file, and the file is rewritten exactly when the hook is called *)
+Record dl_ev := { dl_reason : reason; dl_stable : bool; dl_run_ok : bool }.
+
+Fixpoint trace_dl (c : cfg) (s : st) (f : option control_file) (h : list dl_ev)
+  : list obs * option final * option control_file :=
+  match h with
+  | [] => ([], None, f)
+  | e :: h' =>
+      let r := dl_reason e in
+      let s0 := on_exit s r in
+      let '(ho, f1) := if hook_called c s0 r then dlmeso_hook r f else (HJunk, f) in
+      let '(s1, cd) := ctl_restart (as_custom c) s0 r ho (dl_stable e) (dl_run_ok e) in
+      if code_eqb cd Initiated then
+        let '(o, fin, f2) := trace_dl c s1 f1 h' in ((cd, restarts s1, resub s1) :: o, fin, f2)
+      else ([(cd, restarts s1, resub s1)], Some (final_of c r), f1)
+  end.
+
+Definition cf_eqb (a b : option control_file) : bool :=
+  match a, b with
+  | None, None => true
+  | Some x, Some y => list_eqb str_eqb (cf_lines x) (cf_lines y) && Bool.eqb (cf_last_nl x) (cf_last_nl y)
+  | _, _ => false
+  end.
+
+(* the hook function alone: (reason, file) -> (answer, file afterwards) *)
+Definition hookout_eqb (a b : hookout) : bool :=
+  match a, b with
+  | HPossible, HPossible | HNotAvailable, HNotAvailable | HNotRequired, HNotRequired
+  | HNotPossible, HNotPossible | HFailed, HFailed | HCondNotMet, HCondNotMet | HTrue, HTrue
+  | HFalse, HFalse | HJunk, HJunk | HRaiseIO, HRaiseIO | HRaiseOther, HRaiseOther => true
+  | _, _ => false
+  end.
+Definition check_dlmeso_hook (k : reason * option control_file * (hookout * option control_file)) : bool :=
+  let '(r, f, (ho, f')) := k in
+  let '(mo, mf) := dlmeso_hook r f in hookout_eqb ho mo && cf_eqb f' mf.
+
+(* the whole chain with the fallback hook and a CONTROL file *)
+Definition check_dlmeso_case
+  (k : cfg * option control_file * list dl_ev * (list obs * option final * option control_file)) : bool :=
+  let '(c, f, h, (o, fin, f')) := k in
+  uses_fallback c &&
+  let '(o', fin', mf) := trace_dl c init_st f h in
+  list_eqb obs_eqb o o' &&
+  match fin, fin' with None, None => true | Some a, Some b => final_eqb a b | _, _ => false end &&
+  cf_eqb f' mf.
+
+(* ---- what Engine.restart resets on the engine before it calls run() (engine.py:993-1000):
+   process, _taskFinished, _taskLaunched, _exitReason; the controller reads the engine through
+   exitReason(), returncode(), isAlive() which are all functions of _exitReason. *)
+Record engine_view := { v_exit : option reason; v_process : bool; v_launched : bool; v_finished : bool }.
+
+Definition fresh_view : engine_view :=      (* Engine.__init__ *)
+  {| v_exit := None; v_process := false; v_launched := false; v_finished := false |}.
+Definition exited_view (r : reason) : engine_view :=   (* a task ran and exited with r *)
+  {| v_exit := Some r; v_process := true; v_launched := true; v_finished := true |}.
+Definition restart_reset (v : engine_view) : engine_view :=
+  {| v_exit := None; v_process := false; v_launched := false; v_finished := false |}.
+
+Definition v_alive (v : engine_view) : bool := match v_exit v with None => true | Some _ => false end.
+Definition v_returncode (v : engine_view) : option Z :=
+  match v_exit v with None => None | Some Success => Some 0 | Some _ => Some 1 end.
+
+(* the engine as the controller sees it right after an exit has been handled: reset only on the
+   branch of Engine.restart that goes on to run() (context Possible/NotAvailable), whether or not
+   run() then succeeds; untouched on every refusal before that point.  Ordinary engines only. *)
+Definition reaches_run (c : cfg) (s : st) (r : reason) (h : hookout) (stable : bool) : bool :=
+  code_eqb (snd (ctl_restart c s r h stable true)) Initiated.
+
+Definition view_after (c : cfg) (s : st) (e : exit_ev) : engine_view :=
+  let r := ev_reason e in
+  if reaches_run c (on_exit s r) r (ev_hook e) (ev_stable e) then restart_reset (exited_view r) else exited_view r.
+
+Definition view_obs := (option reason * option Z * bool * bool * bool * bool)%type.
+Definition observe (v : engine_view) : view_obs :=
+  (v_exit v, v_returncode v, v_alive v, v_process v, v_launched v, v_finished v).
+
+Fixpoint views (c : cfg) (s : st) (h : list exit_ev) : list view_obs :=
+  match h with
+  | [] => []
+  | e :: h' =>
+      let '(s1, cd) := pm_step c s e in
+      observe (view_after c s e) :: (if code_eqb cd Initiated then views c s1 h' else [])
+  end.
+
+Definition oreason_eqb (a b : option reason) : bool :=
+  match a, b with None, None => true | Some x, Some y => reason_eqb x y | _, _ => false end.
+Definition oZ_eqb (a b : option Z) : bool :=
+  match a, b with None, None => true | Some x, Some y => x =? y | _, _ => false end.
+Definition view_obs_eqb (a b : view_obs) : bool :=
+  let '(e1, rc1, al1, p1, l1, f1) := a in let '(e2, rc2, al2, p2, l2, f2) := b in
+  oreason_eqb e1 e2 && oZ_eqb rc1 rc2 && Bool.eqb al1 al2 && Bool.eqb p1 p2 && Bool.eqb l1 l2 && Bool.eqb f1 f2.
+
+(* check_case + the engine views step by step (ordinary engines) + a freshly built engine's view *)
+Definition check_case_views (k : cfg * list exit_ev * (list obs * option final) * (list view_obs * view_obs)) : bool :=
+  let '(c, h, of, (vs, fresh)) := k in
+  check_case (c, h, of) &&
+  (is_rep c || list_eqb view_obs_eqb vs (views c init_st h)) &&
+  view_obs_eqb fresh (observe fresh_view).
